@@ -693,6 +693,33 @@ def c14_case(ctx: Ctx, case: dict):
                 return
 
 
+def c14_extra(ctx: Ctx):
+    """conditions with three and more operands (flat and nested) on batches whose columns fall on different sides of
+    them: a connective reduced over the wrong axis gives every column the same branch"""
+    rng = ctx.rng
+    if rng.random() < 0.4:
+        return cond_extra(ctx)
+    names = ["x", "y", "z", "a"]
+
+    def rel():
+        v = rng.choice(names)
+        return f"{rng.choice(['Lt', 'Gt', 'Le', 'Ge'])}({v}, {rng.choice(['-1', '0', '0.5', '1', '2'])})"
+
+    def conn(depth):
+        tag = rng.choice(["And", "Or"])
+        n = rng.choice([3, 3, 4, 5])
+        args = [conn(depth - 1) if depth > 0 and rng.random() < 0.3 else rel() for _ in range(n)]
+        return f"{tag}({', '.join(args)})"
+
+    c = [conn(1) for _ in range(3)]
+    text = (f"states(x=0.5, y=-0.25, z=1.5)\nparameters(a=0.75)\n"
+            f"c1 = Conditional({c[0]}, 2, 3)\nc2 = Conditional({c[1]}, x, y)\n"
+            f"dx_dt = c1 - x\ndy_dt = c2 + a\ndz_dt = Conditional({c[2]}, z, -z)*a\n")
+    grid = [-2.0, -0.5, 0.25, 0.75, 1.5, 2.5]
+    pts = [{"x": rng.choice(grid), "y": rng.choice(grid), "z": rng.choice(grid), "a": rng.choice(grid), "t": 0.5, "dt": 0.05} for _ in range(8)]
+    return {"text": text, "points": pts, "N": 8}
+
+
 def c14_cfg(ctx, k):
     cfg = gen.ModelCfg(depth=3)
     cfg.expr = gen.ExprCfg(p_cond=0.2, p_ccond=0.05, p_mod=0.06, p_floor=0.05, p_logic=0.6, p_idiom=0.25,
